@@ -272,7 +272,7 @@ def check_known_witnesses(binary, prop):
         except Exception:  # noqa: BLE001
             errs.append(f"witness {w}: replay failed: {(p.stderr or p.stdout)[-500:]}")
             continue
-        if r.get("reproduced"):
+        if r.get("reproduced") or any(v[0] in k["clause"].split("|") for v in r.get("violations", [])):
             lines.append(f"KNOWN-FINDING: property={prop} {k['text']} [clause={k['clause']} witness={k['witness']}]")
         else:
             log(f"[known] witness {k['witness']} no longer reproduces clause {k['clause']} (finding may be repaired)")
